@@ -4,6 +4,7 @@
 
 /* System Headers */
 #include <qthread/qthread-int.h> /* for uint64_t */
+#include <errno.h>               /* for errno */
 
 #ifdef HAVE_SYS_SYSCALL_H
 # include <unistd.h>
@@ -50,6 +51,7 @@ pid_t qt_wait4(pid_t          pid,
     me->thread_state        = QTHREAD_STATE_SYSCALL;
     qthread_back_to_master(me);
     ret = job->ret;
+    if (ret == -1) { errno = job->err; }
     FREE_SYSCALLJOB(job);
     return ret;
 }
